@@ -141,6 +141,9 @@ def gen_csv_case(r) -> Dict[str, Any]:
         "part": "csv", "cls": cls, "period": period, "base": base.isoformat(), "rows": rows, "encoding": enc,
         "newline": r.choice(["\n", "\r\n"]), "sort": r.choice([True, False]), "extra_col": r.random() < 0.4,
         "tz_offset_h": r.choice([0, 0, 0, -5, 3, 9]), "order": order,
+        # the optional knobs: another field separator handed to the reader through dict_reader_kwargs, and (Yahoo) the
+        # row parser's sanitize switch, which repairs rows whose high / low do not enclose open and close
+        "delimiter": r.choice([",", ",", ",", ";", "\t"]), "sanitize": cls == "yahoo" and r.random() < 0.35,
     }
 
 
@@ -155,7 +158,8 @@ def _write_csv(case: Dict[str, Any], path: str) -> None:
         cols = ["datetime", "open", "high", "low", "close", "volume"]
     if case["extra_col"]:
         cols = cols + ["comment"]
-    lines = [",".join(cols)]
+    dl = case.get("delimiter", ",")
+    lines = [dl.join(cols)]
     for row in case["rows"]:
         start = base + datetime.timedelta(seconds=row["start"])
         if yahoo:
@@ -166,7 +170,7 @@ def _write_csv(case: Dict[str, Any], path: str) -> None:
                     row["volume"]]
         if case["extra_col"]:
             vals.append("café € 日本")
-        lines.append(",".join(vals))
+        lines.append(dl.join(vals))
     text = nl.join(lines) + nl
     with open(path, "wb") as f:
         f.write(enc[1] + text.encode(enc[2]))
@@ -176,9 +180,10 @@ def _make_source(case: Dict[str, Any], path: str):
     from basana.core.pair import Pair
     tzinfo = datetime.timezone(datetime.timedelta(hours=case["tz_offset_h"]))
     pair = Pair("BTC", "USD")
+    drk = {"dict_reader_kwargs": {"delimiter": case["delimiter"]}} if case.get("delimiter", ",") != "," else {}
     if case["cls"] == "binance":
         from basana.external.binance.csv import bars as bcsv
-        return bcsv.BarSource(pair, path, case["period"], sort=case["sort"], tzinfo=tzinfo), \
+        return bcsv.BarSource(pair, path, case["period"], sort=case["sort"], tzinfo=tzinfo, **drk), \
             PERIOD_SECONDS[case["period"]], tzinfo
     if case["cls"] in ("bitstamp", "bitstamp_enum"):
         from basana.external.bitstamp.csv import bars as scsv
@@ -189,11 +194,13 @@ def _make_source(case: Dict[str, Any], path: str):
         else:
             period = case["period"]
             secs = period_to_step[period]
-        return scsv.BarSource(pair, path, period, sort=case["sort"], tzinfo=tzinfo), secs, tzinfo
+        return scsv.BarSource(pair, path, period, sort=case["sort"], tzinfo=tzinfo, **drk), secs, tzinfo
     from basana.external.yahoo import bars as ybars
     secs = {"24h": 86400, "1h": 3600, "7d": 7 * 86400}[case["period"]]
-    return ybars.CSVBarSource(pair, path, sort=case["sort"], tzinfo=tzinfo,
-                              timedelta=datetime.timedelta(seconds=secs)), secs, tzinfo
+    ysrc = ybars.CSVBarSource(pair, path, sort=case["sort"], tzinfo=tzinfo, timedelta=datetime.timedelta(seconds=secs), **drk)
+    if case.get("sanitize"):
+        ysrc.row_parser.sanitize = True
+    return ysrc, secs, tzinfo
 
 
 def run_csv_case(case: Dict[str, Any], res: ShardResult, tmpdir: str) -> None:
@@ -214,14 +221,16 @@ def run_csv_case(case: Dict[str, Any], res: ShardResult, tmpdir: str) -> None:
         else:
             start = start.replace(tzinfo=None)
         start = start.replace(tzinfo=tzinfo)
-        if row["invalid"]:
+        o_, h_, l_, c_ = (Decimal(row[k]) for k in ("open", "high", "low", "close"))
+        if case.get("sanitize"):
+            h_, l_ = max(h_, o_, c_), min(l_, o_, c_)       # what "sanitized" means: high / low enclose open and close
+        elif row["invalid"]:
             first_invalid = len(ref) if first_invalid is None else first_invalid
             continue
         if Decimal(row["volume"]) == 0:
             continue
-        ref.append((start + datetime.timedelta(seconds=secs), start, Decimal(row["open"]), Decimal(row["high"]),
-                    Decimal(row["low"]), Decimal(row["close"]), Decimal(row["volume"])))
-    has_invalid = any(r["invalid"] for r in case["rows"])
+        ref.append((start + datetime.timedelta(seconds=secs), start, o_, h_, l_, c_, Decimal(row["volume"])))
+    has_invalid = any(r["invalid"] for r in case["rows"]) and not case.get("sanitize")
 
     got = []
     raised = None
@@ -624,6 +633,12 @@ def gen_exchange_case(r) -> Dict[str, Any]:
             trades.append({"win": w, "off": round(r.uniform(0.15, 0.8) * dur, 3), "exp": len(trades),
                            "price": str(r.randint(90, 110))})
     trades.sort(key=lambda t: (t["win"], t["off"]))
+    for w in range(3):
+        # now and then the first trade of a window carries no amount (its price still opens the bar)
+        first = next((t for t in trades if t["win"] == w), None)
+        if first is not None and len([t for t in trades if t["win"] == w]) > 1 and r.random() < 0.35:
+            first["zero"] = True
+            first["price"] = str(r.choice([50, 150]))
     return {"part": "exchange", "duration": dur, "subs": subs, "trades": trades, "start_off": round(r.uniform(0.02, 0.1) * dur, 3)}
 
 
@@ -668,7 +683,8 @@ def run_exchange_case(case: Dict[str, Any], res: ShardResult) -> None:
                     continue
                 micro = int(vclock.EPOCH_TS * US) + int(round(at * US))
                 ws.push_json({"event": "trade", "channel": "live_trades_btcusd",
-                              "data": {"id": t["exp"], "microtimestamp": str(micro), "amount_str": str(Decimal(2 ** t["exp"]) / Decimal(10 ** 8)),
+                              "data": {"id": t["exp"], "microtimestamp": str(micro),
+                                       "amount_str": "0" if t.get("zero") else str(Decimal(2 ** t["exp"]) / Decimal(10 ** 8)),
                                        "price_str": t["price"], "type": 0, "buy_order_id": 1, "sell_order_id": 2}})
             await asyncio.sleep(4 * dur + 2 - loop.now_ns() / 1e9)
             d.stop()
@@ -689,7 +705,7 @@ def run_exchange_case(case: Dict[str, Any], res: ShardResult) -> None:
         if ts:
             prices = [Decimal(t["price"]) for t in ts]
             ref[w * dur * 1000] = (prices[0], max(prices), min(prices), prices[-1],
-                                   sum((Decimal(2 ** t["exp"]) / Decimal(10 ** 8) for t in ts), Decimal(0)))
+                                   sum((Decimal(2 ** t["exp"]) / Decimal(10 ** 8) for t in ts if not t.get("zero")), Decimal(0)))
     for i, sub in enumerate(case["subs"]):
         bars = {b[0]: b[1:] for b in got[i]}
         res.count("exchange_level_bars", len(bars))
